@@ -1,4 +1,4 @@
-#!/usr/bin/env python3
+#!/venv/bin/python
 """Regenerates /verif/MANIFEST.json from the check modules that exist (harness/props/cXX.py)."""
 import os, sys, json, importlib, glob
 HERE = os.path.dirname(os.path.abspath(__file__))
